@@ -155,7 +155,7 @@ def make_inputs(seed, tier):
     else:
         marked = 0
         for g in groups:
-            if g.gid.startswith("gen") and not g.opts and marked < 8:
+            if g.gid.startswith("gen") and not g.opts and marked < 5:
                 g.midk = True
                 marked += 1
     # corpus programs over the library: plain and with planted errors
@@ -358,7 +358,8 @@ class Runner(object):
             ent = self.commands.setdefault((group.gid, conf["id"]), {"cwd": seen_dir, "env": c["env"], "envadd": conf["envadd"], "commands": []})
             ent["commands"].append(" ".join(cmd))
             self.durations[(group.gid, conf["id"], files[0])] = time.time() - t_start
-        return {"rc": rc, "obs": obs, "reached": reached, "files": list(files)}
+        ends = rc != 0 and any(m in out for m in (b"(Fatal Error)", b"Program fault", b"Compiler bug"))
+        return {"rc": rc, "obs": obs, "reached": reached, "files": list(files), "ends_invocation": ends}
 
     def describe_difference(self, key, dg1, dg2):
         """Human-readable detail for the replay file (never used for the verdict)."""
@@ -454,20 +455,39 @@ def cost(g, c):
 def run_all(runner, pairs, nproc):
     """Run every (group, configuration) pair -- one job per compiler invocation -- and turn the results into Observe
     events grouped by monitor input, the baseline observation first (so that `first` in a report is the baseline)."""
-    jobs = []
-    for pi, (g, c) in enumerate(pairs):
-        names = [i.name for i in g.inputs]
-        for files in ([names] if c["cfg"]["inv"] == "batch" else [[n] for n in names]):
-            jobs.append((pi, files))
-    order = sorted(range(len(jobs)), key=lambda j: -cost(pairs[jobs[j][0]][0], pairs[jobs[j][0]][1]) * len(jobs[j][1]))
-    results = [None] * len(jobs)
-    with concurrent.futures.ThreadPoolExecutor(max_workers=nproc) as ex:
-        futs = {ex.submit(runner.invoke, pairs[jobs[j][0]][0], pairs[jobs[j][0]][1], jobs[j][1], j): j for j in order}
-        for f in concurrent.futures.as_completed(futs):
-            results[futs[f]] = f.result()
-    per_pair = {}
-    for (pi, files), r in zip(jobs, results):
-        per_pair.setdefault(pi, [])
+    results = {}
+
+    def stage(pis):
+        jobs = []
+        for pi in pis:
+            g, c = pairs[pi]
+            names = [i.name for i in g.inputs]
+            for files in ([names] if c["cfg"]["inv"] == "batch" else [[n] for n in names]):
+                jobs.append((pi, files))
+        texts = {i.name: i for g, _ in pairs for i in g.inputs}
+        jobs.sort(key=lambda j: -sum(cost_file(texts[n], pairs[j[0]][1]) for n in j[1]))      # longest first
+        with concurrent.futures.ThreadPoolExecutor(max_workers=nproc) as ex:
+            futs = {ex.submit(runner.invoke, pairs[pi][0], pairs[pi][1], files, n): (pi, files)
+                    for n, (pi, files) in enumerate(jobs, start=stage.counter)}
+            stage.counter += len(jobs)
+            for f in concurrent.futures.as_completed(futs):
+                pi, files = futs[f]
+                results.setdefault(pi, []).append(f.result())
+    stage.counter = 0
+    # stage 1: the baseline (separate invocations).  A file whose own compilation ends the invocation (fatal error, abort)
+    # would keep the files after it in a batch from being compiled at all, so such files are moved to the end of their
+    # group before any batched run is made (the order of a group is fixed from then on).
+    first = [pi for pi, (g, c) in enumerate(pairs) if c["dist"] == 0]
+    stage(first)
+    for pi in first:
+        g = pairs[pi][0]
+        ends = {r["files"][0]: r["ends_invocation"] for r in results[pi] if r is not None}
+        g.inputs.sort(key=lambda i: 1 if ends.get(i.name) else 0)
+    fs = set(first)
+    stage([pi for pi in range(len(pairs)) if pi not in fs])
+    jobs_results = [(pi, r) for pi in results for r in results[pi]]
+    per_pair = {pi: [] for pi in range(len(pairs))}
+    for pi, r in jobs_results:
         if r is not None:
             per_pair[pi].append(r)
     by_input = {}
